@@ -3,23 +3,33 @@
     methods per address, each map expects one address space, methods are
     linear / lookup / memory array / page table / custom) and not from sys.c.
 
-    [conv caps a b]: [b] is obtained from [a] by applying, zero or more times,
-    the translation method that one of the system's maps selects for the
-    current address (a map is applicable when it expects the address space the
-    current address is in), and [b] lies in one of the address spaces of
-    [caps].  Methods that consult target memory (memory arrays, page tables)
-    read it at an address that is itself converted to a space the reader can
-    read ([rdval]): the relations are mutually inductive, so every conversion
-    is a finite composition.
+    A conversion of [a] under the capability mask [caps]:
+    - if [a] already lies in a usable address space it is [a] itself and
+      nothing else ("an address already in a usable space is passed through
+      unchanged");
+    - otherwise one of the system's maps that expects [a]'s address space
+      selects a translation method for [a], the method translates [a] to some
+      [c], and the conversion continues from [c].
+    Methods that consult target memory (memory arrays, page tables) read it at
+    a full address that is itself converted to a space the read callback can
+    read ([rd]), so a conversion is a finite tree of conversions.  The
+    relations are indexed by the two finite measures of such a tree: [d], the
+    nesting depth of memory reads, and [len], the number of methods applied
+    in a row; [conv] is "for some [d] and [len]".
 
     There is no reference to chains, alternatives, fall-through order,
     in-flight records or fuel here.
 
-    [conv_all] enumerates the conversions of bounded nesting depth and path
-    length (proved sound in SysProofs.v); [judge] evaluates the property on an
+    Page tables of an arbitrary format are described by the format's
+    first-step function, its transition on a raw PTE and its PTE size (the
+    parameters [fmt_first], [fmt_next], [fmt_ptesz], as in ChainInterp.v).
+
+    [conv_all d len] enumerates exactly the conversions of measure [(d, len)]
+    (SysProofs.v: sound and complete); [judge] evaluates the property on one
     observed run of an implementation. *)
 From Coq Require Import NArith ZArith List Bool.
 From KdV Require Import Base.Wrap64 Map.MapModel Sys.ChainInterp.
+From KdV Require Xlat.Step.
 Import ListNotations.
 Local Open Scope N_scope.
 
@@ -34,62 +44,112 @@ Definition ALL_MAPS : list N := [0; 1; 2; 3; 4].
 Section Spec.
   Variable s : sys.
   Variable rcaps : N.
-  Variable mem : Z -> N -> N -> Z * N.
+  Variable mem : Z -> N -> N -> option (Z * N).
+  Variable fmt_first : Step.aspace -> N -> Step.pform -> N -> Step.status * Step.step.
+  Variable fmt_next : Step.aspace -> N -> Step.pform -> Step.step -> N -> Step.status * Step.step.
+  Variable fmt_ptesz : Step.pform -> option N.
+  (** page-table walks of at most [wf] steps are considered (a format whose
+      steps never end translates nothing) *)
+  Variable wf : nat.
 
-  Inductive conv : N -> fulladdr -> fulladdr -> Prop :=
-  | conv_done caps a : in_caps caps (fa_as a) -> conv caps a a
-  | conv_step caps a c b : step1 a c -> conv caps c b -> conv caps a b
+  (** ** One method, given what reading target memory yields *)
+  Section WithReads.
+    (** [rd fa sz v]: a [sz]-byte read at the full address [fa] can yield [v] *)
+    Variable rd : fulladdr -> N -> N -> Prop.
 
-  (** one map applied to an address in the space the map expects *)
-  with step1 : fulladdr -> fulladdr -> Prop :=
-  | step1_map a b mapidx mp m :
-      In mapidx ALL_MAPS ->
-      fa_as a = map_expect_as mapidx ->
-      s_map s mapidx = Some mp ->
-      get_meth s (map_search mp (fa_addr a)) = Some m ->
-      xlat m (fa_addr a) b ->
-      step1 a b
+    (** a hierarchy of page-frame-number tables, top level first: the entry
+        for index [i] is at [base + i * (entry size)]; an entry that is zero
+        after masking is not present; the next level (finally the page) starts
+        at [entry << page shift] in the target address space *)
+    Inductive tables (tas : Z) (pte64 : bool) (mask sh0 : N)
+      : list N -> fulladdr -> fulladdr -> Prop :=
+    | tables_nil base : tables tas pte64 mask sh0 [] base base
+    | tables_cons i tl base raw b :
+        rd (FA (wadd (fa_addr base) (wmul i (if pte64 then 8 else 4))) (fa_as base))
+           (if pte64 then 8 else 4) raw ->
+        N.ldiff raw mask <> 0 ->
+        tables tas pte64 mask sh0 tl (FA (wshl (N.ldiff raw mask) sh0) tas) b ->
+        tables tas pte64 mask sh0 (i :: tl) base b.
 
-  (** one translation method applied to an address *)
-  with xlat : method -> N -> fulladdr -> Prop :=
-  | xlat_custom f a b : f a = (ST_OK, b) -> xlat (MCustom f) a b
-  | xlat_linear tas off a : xlat (MLinear tas off) a (FA (wadd a off) tas)
-  | xlat_lookup tas endoff tbl a orig dest :
-      In (orig, dest) tbl -> orig <= a -> a <= orig + endoff ->
-      xlat (MLookup tas endoff tbl) a (FA (wadd dest (wsub a orig)) tas)
-  | xlat_memarr tas base shift elemsz valsz a v :
-      shift < 64 -> valsz = 4 \/ valsz = 8 ->
-      rdval (FA (wadd (fa_addr base) (wmul (N.shiftr a shift) elemsz)) (fa_as base)) valsz v ->
-      xlat (MMemarr tas base shift elemsz valsz) a
-           (FA (wadd (wshl v shift) (N.land a (N.ones shift))) tas)
-  | xlat_pgt tas root pte64 mask fields a (idx : list N) b :
-      fa_as root <> AS_NOADDR ->
-      split_fields fields a = Some (idx, 0) ->
-      tables tas pte64 mask (hd 0 fields) (rev (tl idx)) root b ->
-      xlat (MPgt tas root pte64 mask fields) a
-           (match idx with [] => root | i0 :: _ => FA (wadd (fa_addr b) i0) tas end)
+    (** a page table of any format: from the state the first step left, each
+        level adds its index to the table base, reads the entry there and lets
+        the format decide; the last index is the offset into the page *)
+    Inductive fwalk (tgt : Step.aspace) (mask : N) (pf : Step.pform)
+      : nat -> Step.step -> fulladdr -> Prop :=
+    | fwalk_last n st s1 :
+        Step.s_remain st = 1%nat -> Step.advance st 0 = Some s1 ->
+        fwalk tgt mask pf (S n) st (FA (Step.s_base s1) (as_of tgt))
+    | fwalk_level n st r s1 raw s2 b :
+        Step.s_remain st = S (S r) -> Step.advance st (S r) = Some s1 ->
+        match fmt_ptesz pf with
+        | Some sz => rd (FA (Step.s_base s1) (as_of (Step.s_as s1))) sz raw
+        | None => raw = 0
+        end ->
+        fmt_next tgt mask pf s1 raw = (Step.OK, s2) ->
+        fwalk tgt mask pf n s2 b ->
+        fwalk tgt mask pf (S n) st b.
 
-  (** a hierarchy of page-frame-number tables, top level first: the entry
-      for index [i] is at [base + i * (entry size)]; an entry that is zero
-      after masking is not present; the next level (finally the page) starts
-      at [entry << page shift] in the target address space *)
-  with tables : Z -> bool -> N -> N -> list N -> fulladdr -> fulladdr -> Prop :=
-  | tables_nil tas pte64 mask sh0 base : tables tas pte64 mask sh0 [] base base
-  | tables_cons tas (pte64 : bool) mask sh0 i tl base raw b :
-      rdval (FA (wadd (fa_addr base) (wmul i (if pte64 then 8 else 4))) (fa_as base))
-            (if pte64 then 8 else 4) raw ->
-      N.ldiff raw mask <> 0 ->
-      tables tas pte64 mask sh0 tl (FA (wshl (N.ldiff raw mask) sh0) tas) b ->
-      tables tas pte64 mask sh0 (i :: tl) base b
+    Inductive xlat : method -> N -> fulladdr -> Prop :=
+    | xlat_custom f a b : f a = (ST_OK, b) -> xlat (MCustom f) a b
+    | xlat_linear tas off a : xlat (MLinear tas off) a (FA (wadd a off) tas)
+    | xlat_lookup tas endoff tbl a orig dest :
+        In (orig, dest) tbl -> orig <= a -> a <= orig + endoff ->
+        xlat (MLookup tas endoff tbl) a (FA (wadd dest (wsub a orig)) tas)
+    | xlat_memarr tas base shift elemsz valsz a v :
+        shift < 64 -> valsz = 4 \/ valsz = 8 ->
+        rd (FA (wadd (fa_addr base) (wmul (N.shiftr a shift) elemsz)) (fa_as base)) valsz v ->
+        xlat (MMemarr tas base shift elemsz valsz) a
+             (FA (wadd (wshl v shift) (N.land a (N.ones shift))) tas)
+    | xlat_pgt tas root pte64 mask fields a (idx : list N) b :
+        fa_as root <> AS_NOADDR ->
+        split_fields fields a = Some (idx, 0) ->
+        tables tas pte64 mask (hd 0 fields) (rev (tl idx)) root b ->
+        xlat (MPgt tas root pte64 mask fields) a
+             (match idx with [] => root | i0 :: _ => FA (wadd (fa_addr b) i0) tas end)
+    | xlat_pgtf_done tgt ras root mask pf a st :
+        fmt_first ras root pf a = (Step.OK, st) -> Step.s_remain st = 0%nat ->
+        xlat (MPgtF tgt ras root mask pf) a (FA (Step.s_base st) (as_of (Step.s_as st)))
+    | xlat_pgtf_walk tgt ras root mask pf a st b :
+        fmt_first ras root pf a = (Step.OK, st) -> Step.s_remain st <> 0%nat ->
+        fwalk tgt mask pf wf st b ->
+        xlat (MPgtF tgt ras root mask pf) a b.
 
-  (** the content of target memory at a full address: the address is
-      converted to a space the read callback can read *)
-  with rdval : fulladdr -> N -> N -> Prop :=
-  | rdval_intro fa fa' sz v :
-      conv rcaps fa fa' -> mem (fa_as fa') (fa_addr fa') sz = (ST_OK, v) ->
-      rdval fa sz v.
+    (** one map applied to an address in the space the map expects *)
+    Inductive step1 : fulladdr -> fulladdr -> Prop :=
+    | step1_map a b mapidx mp m :
+        In mapidx ALL_MAPS ->
+        fa_as a = map_expect_as mapidx ->
+        s_map s mapidx = Some mp ->
+        get_meth s (map_search mp (fa_addr a)) = Some m ->
+        xlat m (fa_addr a) b ->
+        step1 a b.
 
-  (** ** Executable enumeration (bounded nesting depth [d], path length [len]). *)
+    (** at most [len] methods in a row, stopping at the first address in a
+        usable space *)
+    Inductive path (caps : N) : nat -> fulladdr -> fulladdr -> Prop :=
+    | path_done len a : in_caps caps (fa_as a) -> path caps len a a
+    | path_step len a c b :
+        ~ in_caps caps (fa_as a) -> step1 a c -> path caps len c b -> path caps (S len) a b.
+  End WithReads.
+
+  (** ** Conversions of read-nesting depth at most [d] *)
+  Fixpoint convB (d len : nat) (caps : N) (a b : fulladdr) : Prop :=
+    match d with
+    | O => in_caps caps (fa_as a) /\ b = a
+    | S d' =>
+        path (fun fa sz v => exists fa', convB d' len rcaps fa fa' /\
+                                         mem (fa_as fa') (fa_addr fa') sz = Some (ST_OK, v))
+             caps len a b
+    end.
+
+  (** the content of target memory at a full address, through a conversion
+      of depth at most [d] to a space the read callback can read *)
+  Definition rdB (d len : nat) (fa : fulladdr) (sz v : N) : Prop :=
+    exists fa', convB d len rcaps fa fa' /\ mem (fa_as fa') (fa_addr fa') sz = Some (ST_OK, v).
+
+  Definition conv (caps : N) (a b : fulladdr) : Prop := exists d len, convB d len caps a b.
+
+  (** ** Executable enumeration *)
 
   Fixpoint lookup_all (tbl : list (N * N)) (endoff a : N) (tas : Z) : list fulladdr :=
     match tbl with
@@ -101,8 +161,6 @@ Section Spec.
     end.
 
   Section Depth.
-    (** [rd fa sz]: all values readable at [fa] with nesting depth below the
-        current one *)
     Variable rd : fulladdr -> N -> list N.
 
     Fixpoint tables_all (tas : Z) (pte64 : bool) (mask sh0 : N) (idxs : list N)
@@ -116,6 +174,34 @@ Section Spec.
                       else tables_all tas pte64 mask sh0 tl
                                       (FA (wshl (N.ldiff raw mask) sh0) tas))
                    (rd (FA (wadd (fa_addr base) (wmul i ptesz)) (fa_as base)) ptesz)
+      end.
+
+    Fixpoint fwalk_all (n : nat) (tgt : Step.aspace) (mask : N) (pf : Step.pform)
+             (st : Step.step) : list fulladdr :=
+      match n with
+      | O => []
+      | S n' =>
+          match Step.s_remain st with
+          | O => []
+          | S r =>
+              match Step.advance st r with
+              | None => []
+              | Some s1 =>
+                  match r with
+                  | O => [FA (Step.s_base s1) (as_of tgt)]
+                  | S _ =>
+                      flat_map (fun raw =>
+                                  match fmt_next tgt mask pf s1 raw with
+                                  | (Step.OK, s2) => fwalk_all n' tgt mask pf s2
+                                  | _ => []
+                                  end)
+                               (match fmt_ptesz pf with
+                                | Some sz => rd (FA (Step.s_base s1) (as_of (Step.s_as s1))) sz
+                                | None => [0]
+                                end)
+                  end
+              end
+          end
       end.
 
     Definition xlat_all (m : method) (a : N) : list fulladdr :=
@@ -137,6 +223,15 @@ Section Spec.
                        (tables_all tas pte64 mask (hd 0 fields) (rev (tl idx)) root)
                | _ => []
                end
+      | MPgtF tgt ras root mask pf =>
+          match fmt_first ras root pf a with
+          | (Step.OK, st) =>
+              match Step.s_remain st with
+              | O => [FA (Step.s_base st) (as_of (Step.s_as st))]
+              | S _ => fwalk_all wf tgt mask pf st
+              end
+          | _ => []
+          end
       end.
 
     Definition step_all (a : fulladdr) : list fulladdr :=
@@ -153,9 +248,6 @@ Section Spec.
                   else [])
                ALL_MAPS.
 
-    (** (an address in a usable space is not converted further: [conv]
-        would allow it, no implementation does it, and the enumeration of a
-        subset is all the judge needs) *)
     Fixpoint path_all (len : nat) (caps : N) (a : fulladdr) : list fulladdr :=
       if in_capsb caps (fa_as a) then [a]
       else match len with
@@ -165,8 +257,10 @@ Section Spec.
   End Depth.
 
   Definition rd_via (cv : fulladdr -> list fulladdr) (fa : fulladdr) (sz : N) : list N :=
-    flat_map (fun fa' => let '(st, v) := mem (fa_as fa') (fa_addr fa') sz in
-                         if (st =? ST_OK)%Z then [v] else [])
+    flat_map (fun fa' => match mem (fa_as fa') (fa_addr fa') sz with
+                         | Some (st, v) => if (st =? ST_OK)%Z then [v] else []
+                         | None => []
+                         end)
              (cv fa).
 
   Fixpoint conv_all (d len : nat) (caps : N) (a : fulladdr) : list fulladdr :=
@@ -182,7 +276,8 @@ Section Spec.
       [addrxlat_op] with capabilities [caps] on [a] returned [st] after
       invoking the operation on [calls] (the operation returns [opret]);
       [depth] is the observed nesting depth.  0 = the run is as the property
-      demands; otherwise the number of the clause that fails. *)
+      demands; otherwise the number of the clause that fails.  The result is
+      looked for among the conversions of nesting 0, 1, ... [d]. *)
   Definition judge (d len : nat) (caps : N) (opret : Z) (a : fulladdr)
              (st : Z) (calls : list fulladdr) (depth : nat) : N :=
     if (MAX_OP_DEPTH <? depth)%nat then 5                      (* recursion beyond the bound *)
@@ -194,10 +289,24 @@ Section Spec.
     | [x] =>
         if negb (st =? opret)%Z then 1                        (* status is not the operation's *)
         else if negb (in_capsb caps (fa_as x)) then 2         (* result not in a usable space *)
-        else if in_capsb caps (fa_as a) && negb (fa_eqb x a) then 3
         else if negb (existsb (fun d' => existsb (fa_eqb x) (conv_all d' len caps a)) (seq 0 (S d)))
              then 4                                          (* not a composition (of nesting <= d) *)
         else 0
     | _ => 1                                                   (* operation invoked twice *)
     end.
 End Spec.
+
+(** the clauses of the property that do not mention the composition (used
+    for runs whose get-page callback re-enters the library: the content of
+    the memory it serves is then itself defined through a conversion) *)
+Definition judge_basic (caps : N) (opret : Z) (a : fulladdr)
+           (st : Z) (calls : list fulladdr) (depth : nat) : N :=
+  if (MAX_OP_DEPTH <? depth)%nat then 5
+  else match calls with
+  | [] => if (st =? ST_OK)%Z then 1 else if in_capsb caps (fa_as a) then 3 else 0
+  | [x] => if negb (st =? opret)%Z then 1
+           else if negb (in_capsb caps (fa_as x)) then 2
+           else if in_capsb caps (fa_as a) && negb (fa_eqb x a) then 3
+           else 0
+  | _ => 1
+  end.
